@@ -134,6 +134,27 @@ fn prelude(ctx: &Context, e: ExprRef) -> Result<(String, RefEnc<'_>, String, Ty)
     Ok((text, r, rt, ty))
 }
 
+/// like `prelude`, but declares every symbol of `all` (in the real code's sorts), not only those of `e`
+pub fn prelude_all(ctx: &Context, e: ExprRef, all: &[ExprRef]) -> Result<(String, String, Ty, bool), String> {
+    let mut r = RefEnc::new(ctx, "n");
+    let (rt, ty) = r.enc(e).map_err(|x| x.0)?;
+    let mut text = String::new();
+    for s in all.iter() {
+        text.push_str(&real_cmd(ctx, &SmtCommand::DeclareConst(*s)));
+    }
+    for (_, _, s) in r.decls.iter() {
+        if !all.contains(s) {
+            text.push_str(&real_cmd(ctx, &SmtCommand::DeclareConst(*s)));
+        }
+    }
+    for (n, t, s) in r.decls.iter() {
+        let real = quoted(ctx.get_symbol_name(*s).unwrap());
+        text.push_str(&format!("(define-fun {n} () {} {})\n", sort(*t), to_ref(&real, *t)));
+    }
+    text.push_str(&r.defs);
+    Ok((text, rt, ty, !r.nonvalue_const_array))
+}
+
 pub fn define_script(ctx: &mut Context, e: ExprRef) -> Result<Script, String> {
     let out_sym = {
         let t = ctx[e].clone();
